@@ -19,6 +19,7 @@ type Profile struct {
 	Crashes      bool // kill at an arbitrary instant / at storage boundaries, restart
 	Stops        bool // graceful stop + restart
 	Membership   bool
+	MemberRetry  bool   // a membership request may be repeated verbatim at the same node (a client retrying while the first is pending)
 	MinorityDown bool   // some nodes that are down when the faults stop may stay down (a majority of voters runs)
 	Snapshots    string // "" | "armed" | "threshold"
 	FSMDelays    bool
@@ -39,14 +40,15 @@ type step func(g *Gen, v View) (Action, bool)
 
 // Gen draws the schedule of one case.
 type Gen struct {
-	T      *rapid.T
-	P      Profile
-	C      *Cluster
-	queue  []step
-	phases int
-	client int
-	Pats   map[string]int
-	sticky *stickyState
+	T          *rapid.T
+	P          Profile
+	C          *Cluster
+	queue      []step
+	phases     int
+	client     int
+	Pats       map[string]int
+	sticky     *stickyState
+	lastMember *Action // the previous AddServer request (Profile.MemberRetry)
 }
 
 func NewGen(t *rapid.T, p Profile, c *Cluster) *Gen {
@@ -1525,8 +1527,27 @@ func (g *Gen) membershipSteps(v View) []step {
 	t := g.T
 	et, hb := g.etUs(), g.hbUs()
 	var st []step
+	var reqInner step
 	req := func() step {
 		return func(g *Gen, v View) (Action, bool) {
+			if g.P.MemberRetry && g.lastMember != nil && rapid.IntRange(0, 3).Draw(g.T, "mretry") == 0 {
+				// the same request once more, to the same node: a client that retries while its first
+				// request may still be pending (the leader's configuration already shows the change)
+				a := *g.lastMember
+				a.Client, a.Timeout = g.nextClient(), g.timeout()
+				g.Pats["member-retry"]++
+				return a, true
+			}
+			a, ok := reqInner(g, v)
+			if ok && a.Op == "add" {
+				c := a
+				g.lastMember = &c
+			}
+			return a, ok
+		}
+	}
+	reqInner = func(g *Gen, v View) (Action, bool) {
+		{
 			at := v.Leader()
 			if at == "" || rapid.IntRange(0, 5).Draw(g.T, "anyTarget") == 0 {
 				at = g.anyNode("at")
